@@ -67,7 +67,8 @@ def _covenv(env=None):
 
 def run_pub(impl, lines, race=False, nproc=NPROC):
     # the -race build counts in atomic mode: its counters cannot be merged with the other binaries', so it writes none
-    return [unhex(x) for x in run_sharded(impl["pub_race" if race else "pub"], lines, env=(None if race else _covenv()), nproc=nproc)]
+    env = dict((os.environ if race else (_covenv() or os.environ)), HV_TMP="/var/tmp")      # scratch of the harness (named pipes) outside /tmp, removed by the harness itself
+    return [unhex(x) for x in run_sharded(impl["pub_race" if race else "pub"], lines, env=env, nproc=nproc)]
 
 # ---------------------------------------------------------------------------
 # command-line cases
